@@ -3,10 +3,14 @@
 #ifndef C14_VARIANT_H
 #define C14_VARIANT_H
 typedef int none_t;                      /* nix::none_t tag type: carries no value */
+/* data members of class Variant.  The anonymous union is modelled as a struct of separate members: CBMC's encoding of a
+   pointer inside a union made even set(bool) take minutes.  The extracted code only ever reads the member selected by
+   dtype (reading another one would be undefined behaviour in C++ as well), so the two layouts behave the same; the
+   vtable pointer is not modelled. */
 typedef struct {
     DataType dtype;
-    union { bool v_bool; double v_double; uint32_t v_uint32; int32_t v_int32; uint64_t v_uint64; int64_t v_int64; char *v_string; };
-} Variant;                               /* data members of class Variant (the vtable pointer is not modelled) */
+    bool v_bool; double v_double; uint32_t v_uint32; int32_t v_int32; uint64_t v_uint64; int64_t v_int64; char *v_string;
+} Variant;
 #define RV __CPROVER_return_value
 #define VAR_STRMAX 16                    /* bound on string blocks in the jobs that inspect string contents */
 /* fresh Variant whose string (if any) is a heap block of s_len+1 bytes (ghost g_slen) */
@@ -22,7 +26,7 @@ void Variant_maybe_deallocte_string(Variant *self)
 __CPROVER_requires(VAR_IN(Variant_maybe_deallocte_string, self))
 __CPROVER_ensures(/*string-released-exactly-when-held*/ VAR_OLD_FREED)
 __CPROVER_ensures(/*tag-reset*/ __CPROVER_old(self->dtype) == DataType_String ==> self->dtype == DataType_Nothing)
-__CPROVER_ensures(/*other-values-untouched*/ __CPROVER_old(self->dtype) != DataType_String ==> (self->dtype == __CPROVER_old(self->dtype) && self->v_uint64 == __CPROVER_old(self->v_uint64)))
+__CPROVER_ensures(/*other-values-untouched*/ __CPROVER_old(self->dtype) != DataType_String ==> self->dtype == __CPROVER_old(self->dtype))
 NIX_CANARY(Variant_maybe_deallocte_string) __CPROVER_assigns(self->dtype) VAR_FREES_OLD
 ;
 
@@ -31,7 +35,7 @@ __CPROVER_requires(VAR_IN(fn, self)) \
 __CPROVER_ensures(/*type-is-set*/ self->dtype == TAG) \
 __CPROVER_ensures(/*value-is-stored*/ self->FIELD == value) \
 __CPROVER_ensures(/*previous-string-released*/ VAR_OLD_FREED) \
-NIX_CANARY(fn) __CPROVER_assigns(self->dtype, self->v_uint64) VAR_FREES_OLD
+NIX_CANARY(fn) __CPROVER_assigns(self->dtype, self->FIELD) VAR_FREES_OLD
 
 void Variant_set_bool(Variant *self, bool value)
 VAR_SET_CONTRACT(Variant_set_bool, DataType_Bool, v_bool)
@@ -51,15 +55,15 @@ VAR_SET_CONTRACT(Variant_set_uint64, DataType_UInt64, v_uint64)
 void Variant_set_double(Variant *self, double value)
 __CPROVER_requires(VAR_IN(Variant_set_double, self))
 __CPROVER_ensures(/*type-is-set*/ self->dtype == DataType_Double)
-__CPROVER_ensures(/*value-is-stored-bitwise*/ self->v_uint64 == *(uint64_t *)&value)
+__CPROVER_ensures(/*value-is-stored*/ self->v_double == value || (isnan(self->v_double) && isnan(value)))
 __CPROVER_ensures(/*previous-string-released*/ VAR_OLD_FREED)
-NIX_CANARY(Variant_set_double) __CPROVER_assigns(self->dtype, self->v_uint64) VAR_FREES_OLD
+NIX_CANARY(Variant_set_double) __CPROVER_assigns(self->dtype, self->v_double) VAR_FREES_OLD
 ;
 void Variant_set_none(Variant *self, none_t _unnamed1)
 __CPROVER_requires(VAR_IN(Variant_set_none, self))
 __CPROVER_ensures(/*type-is-nothing*/ self->dtype == DataType_Nothing && self->v_bool == false)
 __CPROVER_ensures(/*previous-string-released*/ VAR_OLD_FREED)
-NIX_CANARY(Variant_set_none) __CPROVER_assigns(self->dtype, self->v_uint64) VAR_FREES_OLD
+NIX_CANARY(Variant_set_none) __CPROVER_assigns(self->dtype, self->v_bool) VAR_FREES_OLD
 ;
 
 /* getters: "values whose type differs ... are rejected": wrong type => invalid_argument and the output untouched */
@@ -96,8 +100,8 @@ NIX_THROWS void Variant_get_double(const Variant *self, double *value)
 __CPROVER_requires(NIX_SEL(Variant_get_double, VAR_FRESH(self) && __CPROVER_is_fresh(value, sizeof(double)), __CPROVER_r_ok(self, sizeof(Variant)) && __CPROVER_w_ok(value, sizeof(double))) && nix_exc == EXC_NONE)
 __CPROVER_ensures(/*wrong-type-rejected*/ self->dtype != DataType_Double <==> nix_exc == EXC_invalid_argument)
 __CPROVER_ensures(/*no-other-exception*/ nix_exc == EXC_NONE || nix_exc == EXC_invalid_argument)
-__CPROVER_ensures(/*value-returned-bitwise*/ nix_exc == EXC_NONE ==> *(uint64_t *)value == self->v_uint64)
-__CPROVER_ensures(/*output-untouched-on-rejection*/ nix_exc != EXC_NONE ==> *(uint64_t *)value == __CPROVER_old(*(uint64_t *)value))
+__CPROVER_ensures(/*value-returned*/ nix_exc == EXC_NONE ==> (*value == self->v_double || (isnan(*value) && isnan(self->v_double))))
+__CPROVER_ensures(/*output-untouched-on-rejection*/ nix_exc != EXC_NONE ==> (*value == __CPROVER_old(*value) || (isnan(*value) && isnan(__CPROVER_old(*value)))))
 NIX_CANARY(Variant_get_double) __CPROVER_assigns(nix_exc, *value)
 ;
 
@@ -114,7 +118,7 @@ __CPROVER_requires(len < VAR_STRMAX && NIX_SEL(Variant_set_cstr_len, __CPROVER_i
 __CPROVER_ensures(/*type-is-string*/ self->dtype == DataType_String)
 __CPROVER_ensures(/*terminated*/ self->v_string[len] == 0)
 __CPROVER_ensures(/*bytes-copied*/ ghost_k < len ==> self->v_string[ghost_k] == value[ghost_k])
-NIX_CANARY(Variant_set_cstr_len) __CPROVER_assigns(self->dtype, self->v_uint64) VAR_FREES_OLD
+NIX_CANARY(Variant_set_cstr_len) __CPROVER_assigns(self->dtype, self->v_string) VAR_FREES_OLD
 ;
 #undef RV
 #endif
